@@ -602,7 +602,7 @@ MVal *gen_value(Rng &r, const GenOpts &o, int depth) {
     MVal *m = mv_new(obj ? T_OBJECT : T_ARRAY);
     size_t n = (size_t)r.below((uint64_t)o.max_kids + 1);
     if (r.chance(1, 30)) n += (size_t)r.below(30);
-    else if (depth <= 1 && r.chance(1, 150)) n = 33 + (size_t)r.below(r.chance(1, 4) ? 100 : 36);   // wide containers: beyond the sizes (32, 64, 128) a threshold could sit at
+    else if (depth <= 1 && r.chance(1, (unsigned)o.wide_den)) n = 33 + (size_t)r.below(r.chance(1, 4) ? 100 : 36);   // wide containers: beyond the sizes (32, 64, 128) a threshold could sit at
     for (size_t i = 0; i < n; i++) {
         MVal *k = gen_value(r, o, depth + 1);
         if (obj) {
